@@ -572,6 +572,7 @@ class World:
         self.killed = []
         self.fault_hits = []
         self.hook_rc = {}
+        self.observers = []  # callables(rec) invoked synchronously at every log record
         self.extra_cmds = {}  # argv0 -> handler(world, vt, argv, env) -> SyncResult
         self._saved_environ = None
         self._saved_cwd = None
@@ -590,6 +591,8 @@ class World:
         rec.update(kw)
         self.log.append(rec)
         self.effects += 1
+        for fn in self.observers:
+            fn(rec)
         return rec
 
     def _note_lock(self, what, path, vt):
@@ -611,6 +614,13 @@ class World:
                 data[f] = None
         res = read_result_names(outdir)
         snap = {"i": len(self.log), "dir": outdir, "by": by, "files": data, "results": sorted(res)}
+        try:
+            with REAL.open(os.path.join(outdir, "results.json")) as fh:
+                rj = json.load(fh)
+            snap["results_json"] = {"results": sorted(r["name"] for r in rj["results"]),
+                                    "missing": sorted(rj["missing_jobs"])}
+        except (FileNotFoundError, ValueError, KeyError):
+            snap["results_json"] = None
         if not force and self.snaps and self.snaps[-1]["files"] == data and self.snaps[-1]["dir"] == outdir \
                 and self.snaps[-1]["results"] == snap["results"]:
             return self.snaps[-1]
@@ -806,7 +816,8 @@ class World:
             jid = argv[argv.index("-j") + 1]
         lines = []
         with_name = "name" in " ".join(argv)
-        if jid is not None and jid not in self.slurm:
+        if jid is not None and (jid not in self.slurm or not self.slurm[jid]["visible"]):
+            self.note("squeue", by=vt.proc.name, seen={}, job=jid)
             return SyncResult(1, "", "slurm_load_jobs error: Invalid job id specified\n")
         for j, r in self.slurm.items():
             if not r["visible"]:
